@@ -178,6 +178,10 @@ pub enum Action {
     /// The worker's own clock is `secs` ahead of what the harness accounts for (a stalled worker
     /// process whose time-limit timer has not fired yet). Never generated; used by witnesses.
     AgeWorker { w: Wid, secs: u64 },
+    /// The link of this worker stops delivering in both directions (network partition, frozen
+    /// host): the server keeps the worker registered - also past the worker's time limit - until
+    /// it is removed for a lost heartbeat.
+    Partition { w: Wid },
     Req { client: usize, req: ClientReq },
     AnswerFlush,
     AnswerPrune,
